@@ -5,6 +5,7 @@ import (
 	"go/token"
 	"go/types"
 	"os"
+	"regexp"
 	"strings"
 
 	"golang.org/x/tools/go/ssa"
@@ -354,6 +355,8 @@ func rulesScanErrFor(c *Ctx, r *Report, f *ssa.Function) {
 		fmt.Sprintf("Scanner.Buffer sets a token limit that is not a constant of at least 64 KiB at %v: lines the default scanner reads (long comments, heavily padded rows, wide alphabets) fail with 'token too long'", low))
 }
 
+var keyByteRe = regexp.MustCompile(`^(.*)\[([01])\]\)?$`)
+
 func rulesSymmetrical(c *Ctx, r *Report, f *ssa.Function) {
 	where := fname(f)
 	s := newSymb(f)
@@ -390,7 +393,89 @@ func rulesSymmetrical(c *Ctx, r *Report, f *ssa.Function) {
 			okRangeVal = true
 		}
 	}
-	r.check(len(ups) == 2 && nK == 1 && nF == 1 && okVal && okRangeVal, "SYM", where, "stores pair and mirror", c.pos(f.Pos()), "every iteration stores the pair and its mirror image into the new map with the pair's own score", fmt.Sprintf("Symmetrical does not store exactly {k: v, flip(k): v} per entry (map updates: %d, original key: %d, mirrored key: %d, same original value into the fresh map: %v)", len(ups), nK, nF, okVal && okRangeVal))
+	okPaths := len(ups) == 2 && nK == 1 && nF == 1
+	if !okPaths && nK+nF == len(ups) && nK >= 1 && nF >= 1 {
+		// the stores spread over the arms (a diagonal pair stored once and done): every way through the loop body that
+		// does not panic stores the pair, and stores the mirror unless it took the `k[0] == k[1]` edge, where the
+		// mirror is the pair itself
+		var header *ssa.BasicBlock
+		instrs(f, func(in ssa.Instruction) {
+			if nx, ok := in.(*ssa.Next); ok {
+				header = nx.Block()
+			}
+		})
+		if header != nil {
+			loop := naturalLoop(header)
+			okPaths = true
+			nPaths := 0
+			var walk func(b *ssa.BasicBlock, hasK, hasF, diag bool, depth int)
+			walk = func(b *ssa.BasicBlock, hasK, hasF, diag bool, depth int) {
+				if !okPaths || depth > 64 || nPaths > 256 {
+					okPaths = false
+					return
+				}
+				for _, in := range b.Instrs {
+					if mu, ok := in.(*ssa.MapUpdate); ok {
+						switch keyKind(mu.Key) {
+						case "range key":
+							hasK = true
+						case "mirrored":
+							hasF = true
+						}
+					}
+				}
+				if _, isPanic := lastInstr(b).(*ssa.Panic); isPanic {
+					return
+				}
+				for i, su := range b.Succs {
+					d := diag
+					if iff, ok := lastInstr(b).(*ssa.If); ok {
+						if bo, ok := iff.Cond.(*ssa.BinOp); ok && (bo.Op == token.EQL || bo.Op == token.NEQ) {
+							l, rr := s.expr(bo.X).String(), s.expr(bo.Y).String()
+							if os.Getenv("BIOCHECK_DEBUG") != "" {
+								fmt.Fprintln(os.Stderr, "SYM diag?", l, "|", rr)
+							}
+							ml, mr := keyByteRe.FindStringSubmatch(l), keyByteRe.FindStringSubmatch(rr)
+							if ml != nil && mr != nil && ml[1] == mr[1] && ml[2] != mr[2] {
+								if (bo.Op == token.EQL) == (i == 0) {
+									d = true
+								}
+							}
+						}
+					}
+					if su == header {
+						nPaths++
+						if !hasK || !(hasF || d) {
+							if os.Getenv("BIOCHECK_DEBUG") != "" {
+								fmt.Fprintln(os.Stderr, "SYM bad path at", b.Index, hasK, hasF, d)
+							}
+							okPaths = false
+						}
+						continue
+					}
+					if !loop[su] {
+						if !blockAlwaysPanics(su) {
+							okPaths = false // the loop is left from inside the body
+						}
+						continue
+					}
+					walk(su, hasK, hasF, d, depth+1)
+				}
+			}
+			for _, su := range header.Succs {
+				if loop[su] && su != header {
+					walk(su, false, false, false, 0)
+				}
+			}
+			if nPaths == 0 {
+				okPaths = false
+			}
+			if os.Getenv("BIOCHECK_DEBUG") != "" {
+				fmt.Fprintln(os.Stderr, "SYM paths", nPaths, okPaths)
+			}
+		}
+	}
+	r.check(okPaths && okVal && okRangeVal, "SYM", where, "stores pair and mirror", c.pos(f.Pos()), "every iteration stores the pair and its mirror image into the new map with the pair's own score", fmt.Sprintf("Symmetrical does not store exactly {k: v, flip(k): v} per entry (map updates: %d, original key: %d, mirrored key: %d, same original value into the fresh map: %v)", len(ups), nK, nF, okVal && okRangeVal))
 	// the mirrored key is {k[1], k[0]}
 	okFlip := false
 	instrs(f, func(in ssa.Instruction) {
@@ -436,6 +521,8 @@ func rulesSymmetrical(c *Ctx, r *Report, f *ssa.Function) {
 			hasNe = true
 		case strings.Contains(p, "[0]") && strings.Contains(p, "[1]") && strings.Contains(p, " != ") && !strings.HasPrefix(p, "!"):
 			hasDiag = true
+		case strings.Contains(p, "[0]") && strings.Contains(p, "[1]") && strings.Contains(p, " == ") && strings.HasPrefix(p, "!(") && !strings.Contains(p, "lookup"):
+			hasDiag = true // the same test written as !(k[0] == k[1])
 		case strings.HasPrefix(p, "extract:0(") && !strings.Contains(p, "lookup"):
 			// loop condition (range ok)
 		default:
@@ -631,6 +718,14 @@ func rulesGoString(c *Ctx, r *Report, f *ssa.Function) {
 					return false
 				}
 				outer, ok := inner.X.(*ssa.IndexAddr)
+				if !ok {
+					// a local copy of the element: ki := keys[i]
+					if al, isAl := inner.X.(*ssa.Alloc); isAl {
+						if el, isLd := cellValue(al).(*ssa.UnOp); isLd && el.Op == token.MUL {
+							outer, ok = el.X.(*ssa.IndexAddr)
+						}
+					}
+				}
 				if !ok || len(g.Params) != 2 || outer.Index != ssa.Value(g.Params[param]) {
 					return false
 				}
